@@ -142,6 +142,47 @@ def loop_to_int(c):
     c.replay("code", code=REPLAY)
 
 
+def _expr_value(eng, st, args, kwargs):
+    return [(st, st.deref(args[0]).fields["__value__"])]
+
+
+def _loop_eval(fname):
+    for off_kind in ("expression", "continue", "none"):
+        def _mk(off_kind):
+            @contract(f"liquid.builtin.expressions.loop:LoopExpression.{fname}", prop="C02", name=f"LoopExpression.{fname}[offset={off_kind}]")
+            def le(c):
+                std_globals(c)
+                EXP = "liquid.expression:Expression"
+                it_v, lim_v, off_v = c.any("iterable_value"), c.any("limit_value"), c.any("offset_value")
+                for v in (it_v, lim_v, off_v):
+                    json_like(c, v)
+                c.requires(z3.Not(z3.And(U.is_ref(it_v.t), z3.Function("ref_isinstance$Mapping", U, B)(it_v.t))), "mappings iterate their items (separate path)")
+                c.requires(z3.Not(z3.And(U.is_ref(it_v.t), z3.Function("ref_isinstance$range", U, B)(it_v.t))))
+                tok = NONE
+                iterable = c.obj(EXP, "iterable_expr", __value__=it_v, token=tok)
+                limit = c.obj(EXP, "limit_expr", __value__=lim_v, token=tok)
+                if off_kind == "expression":
+                    offset = c.obj(EXP, "offset_expr", __value__=off_v, token=tok)
+                elif off_kind == "continue":
+                    offset = c.obj("liquid.builtin.expressions.primitive:StringLiteral", "offset_literal", value=const("continue"), token=tok)
+                else:
+                    offset = NONE
+                c.summary("liquid.expression:Expression.evaluate", _expr_value)
+                c.summary("liquid.expression:Expression.evaluate_async", _expr_value)
+                c.summary("liquid.builtin.expressions.loop:LoopExpression._slice", lambda eng, st, a, k: [(st, VTuple((NONE, const(0))))])
+                c.summary("liquid.builtin.expressions.loop:LoopExpression._to_iter", lambda eng, st, a, k: [(st, VTuple((NONE, const(0))))])
+                ctx = mk_ctx(c)
+                self = c.obj("liquid.builtin.expressions.loop:LoopExpression", "loop", iterable=iterable, limit=limit, offset=offset, identifier=c.str("ident"), reversed=c.bool("rev"), cols=NONE)
+                c.call(ctx, self_val=self)
+                c.raises("LiquidError")
+                c.replay("code", code=REPLAY)
+        _mk(off_kind)
+
+
+_loop_eval("evaluate")
+_loop_eval("evaluate_async")
+
+
 @contract("liquid.stringify:to_liquid_string", prop="C02")
 def to_liquid_string(c):
     v = c.any("val")
